@@ -32,7 +32,7 @@ func (j Job) timeout(tier string) int {
 	if j.QuickT > 0 {
 		return j.QuickT
 	}
-	return 600
+	return 1200
 }
 
 // Plan describes how a property is decided.
